@@ -74,7 +74,7 @@ func scanResponse(recs []tokrec, maxRune int, terminated bool) string {
 		b.text(r.lit); b.sp(); b.atom(int64(r.endO)); b.close()
 	}
 	b.close()
-	b.sp(); b.atom(0); b.sp(); b.boolean(!terminated); b.sp(); b.atom(int64(maxRune))
+	b.sp(); b.atom(0); b.sp(); b.boolean(!terminated); b.sp(); b.boolean(maxRune <= 3)
 	b.close()
 	return b.String()
 }
